@@ -556,6 +556,13 @@ class Gen(object):
             return None
         # positions inside, at and beyond both ends of the sibling list
         i = self.pick([0, 1, 2, 3, -1, -2, -5, 7])
+        if x.parent is not None and self.chance(0.5):
+            # state-directed: every position from twice the number of siblings before the front
+            # to twice behind the end, for objects that have siblings
+            sibs = x.parent.sections if kind_of(x) == "sec" else x.parent.properties
+            n = len(sibs)
+            if n >= 2:
+                i = self.rng.randint(-2 * n - 1, 2 * n + 1)
         if self.fault() and self.chance(0.15):
             i = self.pick([1.5, "x", None, 10 ** 30, -10 ** 30])
         return {"op": "reorder", "x": self.ref(x), "i": i}
